@@ -130,7 +130,7 @@ ManyEnum(nroot, nadd) ==
   TEnum([i \in 1..nroot |-> It("r" \o ToString(i), i - 1)], nadd > 0,
         [i \in 1..nadd |-> It("a" \o ToString(i), nroot + i - 1)])
 ManyAdditions(n) ==
-  TSeq("SEQ", <<Mand("pre", TBool)>>, TRUE, [i \in 1..n |-> Add1(Opt("a" \o ToString(i), TBool))])
+  TSeq("SEQ", <<Mand("pre", TBool)>>, TRUE, [i \in 1..n |-> Add1(Opt("a" \o ToString(i), WithTag(TBool, Tag("C", i, "D"))))])
 ManyAlternatives(nroot, nadd) ==
   TChoice([i \in 1..nroot |-> Alt("r" \o ToString(i), WithTag(TBool, Tag("C", i - 1, "D")))], nadd > 0,
           [i \in 1..nadd |-> Alt("a" \o ToString(i), WithTag(TNull, Tag("C", nroot + i - 1, "D")))])
